@@ -11,6 +11,7 @@ import gen_values as GV
 from props.c08 import parse_mismatches
 
 SHARDS = 8
+EXACT = "(c05_case_exact Snapshot.registry Snapshot.current)"
 COQ_SHARD = 40
 
 
@@ -144,13 +145,15 @@ def run(R, only=None):
     k = 3 if R.tier == "quick" else 12
     specs = only or (WITNESSES + [GV.gen_value(rnd, supported=True, max_depth=3 if R.tier == "quick" else 4) for _ in range(n)])
     recs = run_impl_codec(specs, {"protocol": snap["protocol"], "cycles": k})
-    bad, flags, idx = model_compare(R, recs, "c05", flags=["c05_case_supported", "c05_case_proved"])
+    bad, flags, idx = model_compare(R, recs, "c05", flags=["c05_case_supported", "c05_case_proved", EXACT])
     nsup = nproved = 0
     for j, i in enumerate(idx):
         sup = flags["c05_case_supported"][j] if j < len(flags["c05_case_supported"]) else False
         pr = flags["c05_case_proved"][j] if j < len(flags["c05_case_proved"]) else False
         nsup += sup
         nproved += pr
+        if sup and not (flags[EXACT][j] if j < len(flags[EXACT]) else False):
+            R.obligation_broken("C05 model round trip", f"the model's loads(dumps(v)) is not exactly v for the supported value {json.dumps(specs[i])[:300]}")
         if not sup:
             R.count("model-guard:not-supported")
             R.obligation_broken("C05 grammar vs model guard",
